@@ -439,7 +439,7 @@ def shrink_item(item, rerun_case):
     mode = item["mode"]
     if mode == "c03e2e":
         return shrink_e2e(item, rerun_case)
-    if mode in ("c04cli", "c04os"):
+    if mode in ("c04cli", "c04os", "c19cli"):
         return item          # already small; their tokens are not those of a loop case
 
     def fails(case_line):
@@ -731,3 +731,47 @@ def os_timer_stream(name):
             return False
     return Stream(name, "c04os", cases, compare=cmp, crate="hx-loop", drv="loop", impl_timeout=300,
                   describe="real runner on the OS timer (Instant): calls of >= 400 ms under --max-time 1 s: at most ceil(max/400 ms) rounds")
+
+
+# ---------------------------------------------------------------------------
+# C19 end to end: max_time delivered as the only runtime option must cover the tuning rounds
+# ---------------------------------------------------------------------------
+
+def c19_cli_cases(rng, count):
+    """Tuned benches of hx-loop-e2e on the virtual clock; max_time (and sometimes min_time) as the ONLY runtime
+    option, on the command line, in the environment, or by a builder call before config_with_args()."""
+    benches = [("vtune_plain", "-"), ("vtune_attr", 3), ("vtune_grp", 4)]
+    cases = []
+
+    def case(bench, n, extra):
+        return f"bench={bench} via=attr mode=b n={n} s=- threads=1 {extra} evlog=1"
+    for bench, n in benches:
+        for tvia in ("cli", "env", "builder"):
+            # the ceiling is reached while the size is still being doubled (passing would need size 128)
+            cases.append(case(bench, n, f"maxs=0.000002 tvia={tvia} vcost=100000 prec=100000"))
+            # the size settles at 2; the ceiling cuts the collection
+            cases.append(case(bench, n, f"maxs=0.0000007 tvia={tvia} vcost=100000 prec=1000"))
+        cases.append(case(bench, n, "vcost=100000 prec=1000"))                       # no limit: n samples after tuning
+        cases.append(case(bench, n, "mins=0.000003 tvia=cli vcost=100000 prec=1000"))  # a floor prolongs the run
+        cases.append(case(bench, n, "mins=0.00001 maxs=0.0000031 tvia=builder vcost=100000 prec=10000"))
+    while len(cases) < count:
+        bench, n = rng.choice(benches)
+        cost = rng.choice([100_000, 250_000, 40_000])
+        prec = rng.choice([1000, 10_000, 100_000, 30_000])
+        total_calls = rng.randrange(1, 120)
+        lim_ps = total_calls * cost + rng.choice([-1000, 0, 1000])
+        lim = decimal_secs(max(1, lim_ps // 1000))
+        c = case(bench, n, f"maxs={lim} tvia={rng.choice(['cli', 'env', 'builder'])} vcost={cost} prec={prec}")
+        if c not in cases:
+            cases.append(c)
+    return cases
+
+
+def c19_cli_stream(name, cases):
+    def nt(case, model_line):
+        return "sizes=" in model_line and "," in model_line.split("sizes=")[1]
+    return Stream(name, "c19cli", cases, compare=compare, nontrivial=nt, model_input=model_input, crate="hx-loop", drv="loop",
+                  impl_timeout=600,
+                  describe="real runner, tuned size, benchmark on the virtual clock, max_time as the only runtime option (cli / env / "
+                           "builder before config_with_args) to benches with and without attribute or group options: round sizes and "
+                           "rounds read from the event log vs the model driven by the same history")
